@@ -1,9 +1,7 @@
-"""C01 sequential reads equal the flat reference disk."""
-import seqprop
+"""C01: see DESIGN.md section 3."""
+import c10
 
 
 def run(tier, seed, replay):
-    n = 150 if tier == 'quick' else 3000
-    return seqprop.run_histories('C01', tier, seed, ('read', 'api', 'open', 'setup'), n, 30, replay=replay,
-                                 explanation='FlatDisk oracle on the implementation: every read of every history, incl. a full sweep, equals the flat reference disk; all operations return Ok.',
-                                 assumptions=['SimFile implements the host-file contract of Base/File (validated against the real backends by C19)'])
+    n = 60 if tier == 'quick' else 1500
+    return c10.run_foreign('C01', tier, seed, ('read', 'api', 'open', 'setup'), n, 'FlatDisk oracle on every read (incl. a full sweep) of histories over library-formatted and independently built images (data/zero/compressed/backing chains).', plain_n=(90 if tier == 'quick' else 1500))
